@@ -58,3 +58,35 @@ func Verif_C17_subtick_reset() {
 	verifAssert(ok && v == 4, "an entry set afterwards is served")
 	verifReach("subtick-reset")
 }
+
+// H17i, second entry: in a cache WITH A LIMIT a key is deleted (or evicted) and
+// set again at once.  Removing the old entry's timer and arming the new entry's
+// timer are two messages to the wheel: whatever their order and whichever
+// goroutine sends them, the new entry must still be dropped at its own expiry -
+// a late removal of the OLD timer must not cancel the new one.
+func Verif_C17_del_then_set() {
+	verifExactTTL = true
+	cs := verifCase(2)
+	cache, err := NewCache(time.Minute, WithLimit(2))
+	verifAssert(err == nil, "cache is created")
+	cache.SetWithExpire("k", 1, 2*time.Second)
+	verifYield()
+	if cs == 0 {
+		cache.Del("k") // explicit removal ...
+	} else {
+		cache.SetWithExpire("x", 8, 30*time.Second) // ... or eviction: the limit is 2
+		cache.SetWithExpire("y", 9, 30*time.Second)
+	}
+	cache.SetWithExpire("k", 2, 2*time.Second) // ... and the key is set again at once
+	verifCacheSettle(cache, 2)
+	v, ok := cache.Get("k")
+	verifAssert(ok && v == 2, "the key set again is served with its new value")
+	for t := 0; t < 4; t++ {
+		verifCacheTick()
+		verifYield()
+	}
+	verifYield()
+	_, ok = cache.Get("k")
+	verifAssert(!ok, "an entry set again right after its deletion / eviction is still dropped at its own expiry")
+	verifReach("del-then-set")
+}
